@@ -247,8 +247,13 @@ func c12Scenario(c *Ctx, idx int, r *Rng) (mline, mimpl, mcase string) {
 	if noRewrite {
 		var targets []string
 		for _, e := range oldH[w.must("rev-parse", "HEAD")].tree {
-			if strings.HasSuffix(e.path, ".bin") && e.typ == "blob" && e.mode != "120000" {
+			if strings.HasSuffix(e.path, ".bin") && e.typ == "blob" && (e.mode != "120000" || r.Chance(50)) {
+				// a symbolic link whose NAME matches the tracked pattern may be among the paths the user names:
+				// a link is never filtered, its blob is the target
 				targets = append(targets, e.path)
+				if e.mode == "120000" {
+					c.R.Count("import.no-rewrite.symlink-named")
+				}
 			}
 		}
 		if len(targets) == 0 || !preTracked {
@@ -321,6 +326,9 @@ func c12Scenario(c *Ctx, idx int, r *Rng) (mline, mimpl, mcase string) {
 				b, _, okb := c12Resolve(w, blobCache, ne.blob)
 				if !okb || string(a) != string(b) {
 					fail("migrate import --no-rewrite changed a file's content", e.path, "")
+				}
+				if e.mode == "120000" && ne.blob != e.blob {
+					fail("migrate import --no-rewrite changed a file's content", e.path+" (a symbolic link: its target is now LFS pointer text)", "")
 				}
 			}
 		}
